@@ -25,6 +25,9 @@ pub enum CEdit {
     Rename(u16, u16),
     DeleteRecreate(u16, u16),
     HardLink(u16, u16),
+    /// in-place rewrite of the same length whose new mtime is *older* than the one the cache saw
+    /// (restore from a backup with `cp -p`, `touch -d`): the mtime still changes, as the property requires
+    RewriteOlder(u16, u16),
     /// start `group --cache` and SIGKILL it after this many milliseconds
     Kill(u8),
 }
@@ -71,6 +74,7 @@ fn case_strategy() -> BoxedStrategy<C12Case> {
         2 => (0u16..u16::MAX, 0u16..u16::MAX).prop_map(|(a, b)| CEdit::Rename(a, b)),
         3 => (0u16..u16::MAX, 0u16..u16::MAX).prop_map(|(a, b)| CEdit::DeleteRecreate(a, b)),
         1 => (0u16..u16::MAX, 0u16..u16::MAX).prop_map(|(a, b)| CEdit::HardLink(a, b)),
+        2 => (0u16..u16::MAX, 0u16..u16::MAX).prop_map(|(a, b)| CEdit::RewriteOlder(a, b)),
         1 => (1u8..30).prop_map(CEdit::Kill),
     ];
     let knob = || prop::option::weighted(0.3, (0u16..u16::MAX).prop_map(|i| SIZE_KNOBS[pick(i, SIZE_KNOBS.len())]));
@@ -100,6 +104,7 @@ struct World {
     counter: u32,
     inode_reuse: u32,
     same_len_rewrites_after_cached_run: u32,
+    older_rewrites: u32,
 }
 
 fn list(dir: &Path) -> Vec<PathBuf> {
@@ -150,6 +155,29 @@ impl World {
                     self.same_len_rewrites_after_cached_run += 1;
                 }
                 format!("rewrite-same-len {} @{}", p.display(), o)
+            }
+            CEdit::RewriteOlder(a, off) => {
+                let Some(p) = pick_file(*a) else { return String::new() };
+                let Ok(mut b) = std::fs::read(&p) else { return String::new() };
+                if b.is_empty() {
+                    return String::new();
+                }
+                let offs = interesting_offsets(b.len() as u64);
+                let o = offs[pick(*off, offs.len())] as usize;
+                b[o] = b[o].wrapping_add(3 + (self.counter % 150) as u8);
+                self.counter += 1;
+                if let Ok(mut f) = std::fs::OpenOptions::new().write(true).open(&p) {
+                    use std::io::Write;
+                    let _ = f.write_all(&b);
+                }
+                // a fresh value *below* every mtime handed out so far (the logical clock only grows)
+                self.older_rewrites += 1;
+                let t = BASE_TIME * 1000 - 10_000 - self.older_rewrites as i64;
+                set_times(&p, t / 1000, (t % 1000) * 1_000_000, BASE_TIME);
+                if after_cached_run {
+                    self.same_len_rewrites_after_cached_run += 1;
+                }
+                format!("rewrite-same-len-older-mtime {} @{}", p.display(), o)
             }
             CEdit::CopyContentFrom(a, b2) => {
                 let (Some(p), Some(q)) = (pick_file(*a), pick_file(*b2)) else { return String::new() };
@@ -259,7 +287,7 @@ pub fn run_case(c: &C12Case, n: u64) -> Verdict {
     let cd = CaseDir::new("c12", n, if c.ext4 { Fs::Ext4 } else { Fs::Tmpfs });
     let dir = cd.tree().join("r");
     std::fs::create_dir_all(&dir).unwrap();
-    let mut w = World { dir: dir.clone(), clock_ms: BASE_TIME * 1000, counter: 0, inode_reuse: 0, same_len_rewrites_after_cached_run: 0 };
+    let mut w = World { dir: dir.clone(), clock_ms: BASE_TIME * 1000, counter: 0, inode_reuse: 0, same_len_rewrites_after_cached_run: 0, older_rewrites: 0 };
     for f in &c.files {
         let p = w.fresh_name();
         w.write(&p, &f.bytes());
@@ -322,6 +350,9 @@ pub fn run_case(c: &C12Case, n: u64) -> Verdict {
     if w.inode_reuse > 0 {
         classes.push("inode-reused-on-recreate".into());
     }
+    if w.older_rewrites > 0 {
+        classes.push("rewrite-with-older-mtime".into());
+    }
     if c.ext4 {
         classes.push("ext4".into());
     }
@@ -335,7 +366,7 @@ pub fn check(tier: Tier) -> i32 {
     cleanup_process_scratch();
     ctx.finish(
         "exploration",
-        "proptest-generated histories of 1-6 steps over 3-7 files of 5-140 KB that share long prefixes and suffixes (two content classes, single-byte differences at stage-boundary offsets): each step applies 0-3 edits (create, in-place rewrite of the same length, make identical to another file, append/truncate with or without keeping the mtime, rename, delete+recreate under the same name - on ext4 the inode is usually reused, counted -, hard link, SIGKILL of a running `group --cache` after 1-29 ms) and then runs `group` uncached, cached (cold for this step) and cached again (warm), all with the same options; options (hash fn, transform, max-prefix/suffix, pinned device) change on some steps. Every content change gets the next value of a logical clock with 1 ms steps as mtime (the premise of the property). Oracle (model = the uncached tool): report bodies incl. hashes and statistics must be byte-identical. Non-trivial = a same-length in-place rewrite or an inode-reusing recreate after a cached run, followed by a run with the same hash function.",
+        "proptest-generated histories of 1-6 steps over 3-7 files of 5-140 KB that share long prefixes and suffixes (two content classes, single-byte differences at stage-boundary offsets): each step applies 0-3 edits (create, in-place rewrite of the same length with a newer or with an older mtime, make identical to another file, append/truncate with or without keeping the mtime, rename, delete+recreate under the same name - on ext4 the inode is usually reused, counted -, hard link, SIGKILL of a running `group --cache` after 1-29 ms) and then runs `group` uncached, cached (cold for this step) and cached again (warm), all with the same options; options (hash fn, transform, max-prefix/suffix, pinned device) change on some steps. Every content change gets a fresh mtime (next value of a logical clock with 1 ms steps, or for the 'older' rewrites a fresh value 1 ms below every earlier one): the mtime always changes, which is the premise of the property. Oracle (model = the uncached tool): report bodies incl. hashes and statistics must be byte-identical. Non-trivial = a same-length in-place rewrite or an inode-reusing recreate after a cached run, followed by a run with the same hash function.",
         &["mtimes are set by the harness with millisecond steps", "XDG_CACHE_HOME is private to the history"],
     )
 }
